@@ -90,10 +90,8 @@ func (w *WebsocketConnection) run() {
 // writePump pumps messages from the SPINE and SHIP writeChannels to the websocket connection
 func (w *WebsocketConnection) writeShipPump() {
 	ticker := time.NewTicker(pingPeriod)
-	defer func() {
-		ticker.Stop()
-		close(w.shipWriteChannel)
-	}()
+	// the write channel is not closed here: writers may still be sending on it, they are released by the close channel
+	defer ticker.Stop()
 
 	for {
 		select {
@@ -258,8 +256,14 @@ func (w *WebsocketConnection) WriteMessageToWebsocketConnection(message []byte) 
 		return errors.New(connIsClosedError)
 	}
 
-	w.shipWriteChannel <- message
-	return nil
+	// the write pump stops reading from the channel once the connection is closed,
+	// so never wait for it without also waiting for the close
+	select {
+	case w.shipWriteChannel <- message:
+		return nil
+	case <-w.closeChannel:
+		return errors.New(connIsClosedError)
+	}
 }
 
 // make sure websocket Write is only called once at a time
